@@ -40,6 +40,9 @@ enum Entry {
 }
 
 const PEER_DOC: u64 = 50;
+/// Written (and settled) before the tasks start in the sweep scenarios: the keyspace exists.
+const PRE_DOC: u64 = 40;
+const PRE_DEAD: u64 = 41;
 
 #[derive(Clone, Debug, PartialEq, Eq, Hash, Default)]
 struct Obs {
@@ -50,9 +53,18 @@ struct Obs {
     /// ids live in storage
     in_storage: Vec<u64>,
     errors: Vec<String>,
+    /// sweep scenarios: the document written before the tasks started is no longer in the set
+    earlier_content_lost: bool,
 }
 
 fn run_one(paths: &[Entry], prefix: &[usize], fine: bool) -> (Run, Obs) {
+    run_one_at(paths, prefix, fine, false)
+}
+
+/// `sweep`: the keyspace already exists (one document, one tombstone) and the group's
+/// hourly tombstone sweep (`keyspace_purge_task`, the real background task) has just come
+/// due when the tasks start, so its steps interleave with theirs.
+fn run_one_at(paths: &[Entry], prefix: &[usize], fine: bool, sweep: bool) -> (Run, Obs) {
     let body = async {
         reset_seams();
         let _wall = Wall::start();
@@ -69,6 +81,15 @@ fn run_one(paths: &[Entry], prefix: &[usize], fine: bool) -> (Run, Obs) {
         } else {
             None
         };
+        if sweep {
+            node.store.put(FRESH, PRE_DOC, vec![PRE_DOC as u8], Consistency::None).await.expect("pre put");
+            node.store.put(FRESH, PRE_DEAD, vec![PRE_DEAD as u8], Consistency::None).await.expect("pre put");
+            node.store.del(FRESH, PRE_DEAD, Consistency::None).await.expect("pre del");
+            e2::settle().await;
+            // one hour later: the sweep's interval fires; nothing is settled, its steps are
+            // background work the explorer interleaves with the tasks
+            tokio::time::advance(std::time::Duration::from_secs(3600)).await;
+        }
         let acked = std::rc::Rc::new(std::cell::RefCell::new(Vec::<u64>::new()));
         let errors = std::rc::Rc::new(std::cell::RefCell::new(Vec::<String>::new()));
         // a remote peer's clock for the incoming RPCs
@@ -135,11 +156,14 @@ fn run_one(paths: &[Entry], prefix: &[usize], fine: bool) -> (Run, Obs) {
         obs.acked.sort();
         obs.errors = errors.borrow().clone();
         match node.set_of(FRESH).await {
-            Ok(set) => obs.in_final_set = (1..=paths.len() as u64).chain([PEER_DOC]).filter(|id| set.get(id).is_some()).collect(),
+            Ok(set) => {
+                obs.in_final_set = (1..=paths.len() as u64).chain([PEER_DOC]).filter(|id| set.get(id).is_some()).collect();
+                obs.earlier_content_lost = sweep && set.get(&PRE_DOC).is_none();
+            },
             Err(e) => obs.errors.push(e),
         }
         match read_rows(node.storage.as_ref(), FRESH).await {
-            Ok(rows) => obs.in_storage = rows.iter().filter(|(_, (_, d))| d.is_some()).map(|(k, _)| *k).collect(),
+            Ok(rows) => obs.in_storage = rows.iter().filter(|(k, (_, d))| d.is_some() && **k != PRE_DOC).map(|(k, _)| *k).collect(),
             Err(e) => obs.errors.push(e),
         }
         drop(peer);
@@ -167,6 +191,17 @@ fn judge_fine(paths: &[Entry], run: &Run, obs: &Obs, st: &mut Stats) {
     }
 }
 
+fn judge_sweep(paths: &[Entry], run: &Run, obs: &Obs, st: &mut Stats) {
+    let before = st.found.len();
+    judge(paths, run, obs, st);
+    st.inc("sweep_executions");
+    for f in st.found.iter_mut().skip(before) {
+        f.key = format!("{}/during-the-tombstone-sweep", f.key);
+        f.replay.put("fine_grained", true);
+        f.replay.put("sweep", true);
+    }
+}
+
 fn judge(paths: &[Entry], run: &Run, obs: &Obs, st: &mut Stats) {
     st.inc("executions");
     let rank = (run.deviations() as u64) << 32 | run.choices.len() as u64;
@@ -189,6 +224,14 @@ fn judge(paths: &[Entry], run: &Run, obs: &Obs, st: &mut Stats) {
                     obs.acked, obs.in_final_set, obs.in_storage
                 )
             },
+            case,
+        );
+    }
+    if obs.earlier_content_lost {
+        st.violation_ranked(
+            "earlier-content-missing-from-the-keyspace-set",
+            rank,
+            || format!("document {PRE_DOC}, written before the tasks started, is not in the set a new lookup of {FRESH:?} returns"),
             case,
         );
     }
@@ -237,6 +280,27 @@ pub fn run(tier: Tier) -> i32 {
         summary.prefix_misfits += sum.prefix_misfits;
         summary.capped |= sum.capped;
     }
+    // an existing keyspace while the group's hourly tombstone sweep runs: "one and the same
+    // set for the life of the node" (added after the seeded change C18-e)
+    let sweep_scenarios: Vec<Vec<Entry>> = vec![
+        vec![Entry::Direct],
+        vec![Entry::Put],
+        vec![Entry::Rpc],
+        vec![Entry::GetState],
+        vec![Entry::Put, Entry::Rpc],
+        vec![Entry::Direct, Entry::GetState],
+    ];
+    for paths in &sweep_scenarios {
+        let cfg = ExploreCfg { max_deviations: Some(fine_bound), max_executions: 2_000_000, determinism_check_every: 53 };
+        let (st, sum) = e2::explore(&cfg, |p| run_one_at(paths, p, true, true), |st, run, obs| judge_sweep(paths, run, obs, st));
+        total.merge(st);
+        summary.executions += sum.executions;
+        summary.max_steps = summary.max_steps.max(sum.max_steps);
+        summary.deadlocks += sum.deadlocks;
+        summary.nondeterministic += sum.nondeterministic;
+        summary.prefix_misfits += sum.prefix_misfits;
+        summary.capped |= sum.capped;
+    }
     for (paths, bound) in &scenarios {
         let cfg = ExploreCfg { max_deviations: *bound, max_executions: 2_000_000, determinism_check_every: 53 };
         let (st, sum) = e2::explore(&cfg, |p| run_one(paths, p, false), |st, run, obs| judge(paths, run, obs, st));
@@ -254,6 +318,7 @@ pub fn run(tier: Tier) -> i32 {
     }
     let schedules = total.distinct_count("schedules");
     let outcomes = total.distinct_count("outcomes");
+    let sweep_execs = total.get("sweep_executions");
     total.flush_into(&mut report);
     report.cover("states", schedules);
     report.cover("transitions", summary.executions * summary.max_steps.max(1) as u64);
@@ -271,6 +336,9 @@ pub fn run(tier: Tier) -> i32 {
     report.cover("max_steps_per_execution", summary.max_steps);
     report.cover("k3_deviation_bound", k3);
     report.cover("fine_grained_k2_deviation_bound", fine_bound);
+    report.cover("sweep_scenarios", sweep_scenarios.len());
+    report.cover("sweep_executions", sweep_execs);
+    report.guard(sweep_execs > sweep_scenarios.len() as u64 * 3, "the tombstone sweep does not interleave with the tasks");
     report.cover("exhaustive", !summary.capped);
     report.guard(summary.nondeterministic == 0, "an execution did not reproduce when run twice with the same schedule");
     report.guard(summary.prefix_misfits == 0, "a schedule prefix did not fit its re-execution");
@@ -302,8 +370,9 @@ pub fn replay(case: &J) -> i32 {
         .filter_map(|v| v.as_u64().map(|x| x as usize))
         .collect();
     let fine = case.get("fine_grained").and_then(|v| v.as_bool()).unwrap_or(false);
-    let (run, obs) = run_one(&paths, &schedule, fine);
-    let (run2, obs2) = run_one(&paths, &schedule, fine);
+    let sweep = case.get("sweep").and_then(|v| v.as_bool()).unwrap_or(false);
+    let (run, obs) = run_one_at(&paths, &schedule, fine, sweep);
+    let (run2, obs2) = run_one_at(&paths, &schedule, fine, sweep);
     if run != run2 || obs != obs2 {
         eprintln!("replay is not deterministic");
         return 2;
